@@ -229,6 +229,18 @@ Theorem T10e_derive_is_partial :
 Proof. exact derive_is_partial. Qed.
 Print Assumptions T10e_derive_is_partial.
 
+(* closed with Proofs/DerivP.v (D_correct, D_value): the remaining premise is the derivative of the external
+   normal CDF, used by bioNormalCdf nodes only *)
+Theorem T10e_derive_is_partial_closed :
+  forall (Phi : R -> R),
+    (forall x, is_derive Phi x (D2R inv_sqrt_2pi * exp (- (x * x / 2)))%R) ->
+    forall t n w child en x0,
+      wrt_of t n = Some w -> dom Phi (w :: nil) (upd en w x0) child ->
+      exists d, derive_value Phi t n child (upd en w x0) = XR d /\
+                is_derive (fun x => valR (evalX Phi child (upd en w x))) x0 d.
+Proof. exact derive_is_partial_closed. Qed.
+Print Assumptions T10e_derive_is_partial_closed.
+
 Example T10e_example (Phi : R -> R) :
   derive_value Phi (mkId ["b"%string] [] [] [] ["x"%string]) "b" (EBin Times (EBeta "b" false) (EVar "x"))
   = evalX Phi (EBin Plus (EBin Times (ENumZ 1) (EVar "x")) (EBin Times (EBeta "b" false) (ENumZ 0))).
